@@ -219,7 +219,7 @@ def as_dict(ctx, kind):
         ctx.prove(not hasattr(p, "_cache") and not hasattr(p._proc, "_cache"), "cache-gone-after-exit")
 
 
-@harness("C16.threads", quick=[dict(P=1, b="cpu_times"), dict(P=1, b="num_threads"), dict(P=2, b="cpu_times", small=True), dict(P=1, b="num_threads", small=True, b_block=True)],
+@harness("C16.threads", quick=[dict(P=1, b="cpu_times"), dict(P=1, b="num_threads"), dict(P=2, b="cpu_times", small=True), dict(P=2, b="num_threads", small=True, b_block=True)],
          thorough=[dict(P=2, b=m) for m in ("cpu_times", "num_threads", "ppid", "memory_full_info")] + [dict(P=3, b=m, small=True) for m in ("cpu_times", "num_threads")]
          + [dict(P=2, b=m, small=True, b_block=True) for m in ("cpu_times", "num_threads")], timeout_ms=5000)
 def threads(ctx, P, b, small=False, b_block=False):
